@@ -1,3 +1,4 @@
 import TIV.Common.Wire
-import TIV.Common.Base64
-import TIV.C03.Model
+import TIV.Common.Base64Proofs
+import TIV.C01.Props
+import TIV.C03.Props
